@@ -6,6 +6,7 @@ and divided by len(query)).
 -/
 import Dtaiverif.Proofs.Subseq
 import Dtaiverif.Proofs.SubseqIter
+import Dtaiverif.Proofs.SubseqIterRun
 import Dtaiverif.Proofs.Path
 
 namespace Dtai
@@ -40,6 +41,41 @@ theorem C13_iterator {β : Type} [Preorder β] (n overlap minlen : Nat) (maxlen 
     (overlap = 0 → st.yielded.Pairwise fun m1 m2 => ¬ SharesTwo m1 m2) := by
   have inv := reach_inv n overlap minlen maxlen startOf init st hreach
   exact ⟨inv.distinct, inv.sorted, inv.wf, inv.disjoint⟩
+
+/-- **The executable iterator** (what the driver runs and what `kbest_matches` is compared with): for any
+matching function `vals`, start-point table with `start ≤ end`, and options, its output consists of
+well-formed segments within the length limits, with pairwise distinct end points and — without overlap —
+sharing at most a single boundary sample pairwise. Obtained from `C13_iterator` through
+`kbestRun_reach`: the executable run only performs reachable steps. -/
+theorem C13_executable_iterator (vals : List Cost) (starts : List Nat) (lq overlap : Nat) (minlen maxlen k : Option Nat)
+    (fuel : Nat) (hstarts : ∀ e, starts.getD e 0 ≤ e) :
+    let out := kbestRun starts lq overlap minlen maxlen k fuel (kbestInit vals lq overlap) 0
+    (out.Pairwise fun s1 s2 => s1.2 ≠ s2.2) ∧
+    (∀ s ∈ out, s.1 ≤ s.2 ∧ s.2 < vals.length ∧ minlen.getD 0 ≤ s.2 - s.1 + 1 ∧
+      ∀ ml, maxlen = some ml → s.2 - s.1 + 1 ≤ ml) ∧
+    (overlap = 0 → out.Pairwise fun s1 s2 =>
+      ¬ ∃ j, s1.1 ≤ j ∧ j + 1 ≤ s1.2 ∧ s2.1 ≤ j ∧ j + 1 ≤ s2.2) := by
+  intro out
+  have hlen : (kbestInit vals lq overlap).length = vals.length := by simp [kbestInit]
+  obtain ⟨st, hreach, heq⟩ := kbestRun_reach starts lq overlap minlen maxlen k
+    (absSlots (kbestInit vals lq overlap)) vals.length hstarts fuel (kbestInit vals lq overlap) 0
+    { slots := absSlots (kbestInit vals lq overlap), yielded := [] } Reach.init hlen rfl
+  simp only [List.map_nil, List.append_nil] at heq
+  obtain ⟨h1, _, h3, h4⟩ := C13_iterator vals.length overlap (minlen.getD 0) maxlen _ _ st hreach
+  have hout : out = (st.yielded.map fun m => (m.b, m.e)).reverse := by rw [heq, List.reverse_reverse]
+  refine ⟨?_, ?_, ?_⟩
+  · rw [hout, List.pairwise_reverse, List.pairwise_map]
+    exact h1.imp (fun {a b} h => by simpa using Ne.symm h)
+  · intro s hs
+    rw [hout] at hs
+    simp only [List.mem_reverse, List.mem_map] at hs
+    obtain ⟨m, hm, rfl⟩ := hs
+    exact h3 m hm
+  · intro h0
+    rw [hout, List.pairwise_reverse, List.pairwise_map]
+    exact (h4 h0).imp (fun {a b} h => by
+      intro ⟨j, a1, a2, a3, a4⟩
+      exact h ⟨j, a3, a4, a1, a2⟩)
 
 /- non-vacuity: the executable iterator on a concrete matching function -/
 example : kbestRun [0, 0, 1, 2, 3, 5] 2 0 (some 2) none (some 2) 20
